@@ -1989,6 +1989,17 @@ class unyt_array(np.ndarray):
                     u1 = u0
             # get the unit of the result
             mul, unit = unit_operator(u0, u1)
+            if unit_operator in (_multiply_units, _divide_units) and (
+                u0.base_offset
+                and u0.dimensions is temperature
+                or u1.base_offset
+                and u1.dimensions is temperature
+            ):
+                # refuse before evaluating: the numbers must not end up in out
+                raise InvalidUnitOperation(
+                    "Quantities with units of Fahrenheit or Celsius "
+                    "cannot be multiplied, divided, subtracted or added."
+                )
             # actually evaluate the ufunc
             out_arr = func(
                 inp0.view(np.ndarray), inp1.view(np.ndarray), out=out_func, **kwargs
@@ -2001,16 +2012,6 @@ class unyt_array(np.ndarray):
                                 out_arr.view(np.ndarray), unit.base_value, out=out_func
                             )
                             unit = Unit(registry=unit.registry)
-                if (
-                    u0.base_offset
-                    and u0.dimensions is temperature
-                    or u1.base_offset
-                    and u1.dimensions is temperature
-                ):
-                    raise InvalidUnitOperation(
-                        "Quantities with units of Fahrenheit or Celsius "
-                        "cannot be multiplied, divided, subtracted or added."
-                    )
         else:
             if ufunc is clip:
                 inp = []
